@@ -280,8 +280,10 @@ class GpioHarness(ClientHarness):
     """model = (mode, edge, previous input): per pin, from the CSR descriptions "Mode: 0: Edge, 1: Change" / "Edge: 0: Rising Edge, 1: Falling Edge"."""
     tag = "gpio"
 
-    def __init__(self, name, dw, npins, flavour="GPIOIn", cfg_menu=None, read_in=True, strict_change=False, **kw):
+    def __init__(self, name, dw, npins, flavour="GPIOIn", cfg_menu=None, read_in=True, strict_change=False, cfg_regs=("mode", "edge"),
+                 pad_menu=None, **kw):
         self.npins, self.flavour, self.read_in, self.strict_change = npins, flavour, read_in, strict_change
+        self.cfg_regs, self.pad_menu = tuple(cfg_regs), pad_menu
         self.cfg_menu = tuple(range(1 << npins)) if cfg_menu is None else tuple(cfg_menu)
         self.src_names = tuple(f"i{n}" for n in range(npins))
         self.kinds = ("rising",) * npins
@@ -305,10 +307,10 @@ class GpioHarness(ClientHarness):
         return dict(mode=g._mode, edge=g._edge, **{"in": g._in})
 
     def client_ops(self):
-        return [("w", "mode", p) for p in self.cfg_menu] + [("w", "edge", p) for p in self.cfg_menu] + ([("r", "in")] if self.read_in else [])
+        return [("w", r, p) for r in self.cfg_regs for p in self.cfg_menu] + ([("r", "in")] if self.read_in else [])
 
     def client_inputs(self):
-        return list(range(1 << self.npins))
+        return list(range(1 << self.npins)) if self.pad_menu is None else list(self.pad_menu)
 
     def bind_client(self, D):
         self.i_pad = D.i(self.pad_in)
@@ -359,7 +361,10 @@ class GpioHarness(ClientHarness):
     def client_vacuity(self):
         need = {("rising", 1)}
         if any(m & 1 for m in self.cfg_menu) or any(m & 2 for m in self.cfg_menu):
-            need |= {("change", 0), ("change", 1), ("falling", 0)}
+            if "edge" in self.cfg_regs:
+                need |= {("falling", 0)}
+            if "mode" in self.cfg_regs:
+                need |= {("change", 0), ("change", 1)}
         if not need <= self.seen:
             return f"input edges not all exercised: {need - self.seen}"
         return None
@@ -524,6 +529,9 @@ def register_all(REGISTRY):
     # two pins: the product of the two pins' pipelines, events and configuration bits only closes with a reduced bus alphabet
     small = dict(pend_menu=(1, 2, 3), en_menu=(3,), reads=(), read_in=False)
     gpio("GPIOIn(2 pins,irq,reset configuration),csr8", "quick", 8, 2, cfg_menu=(), **small)
+    # only the edge polarity of pin 1 is written (0 <-> 1), pin 0 stays at its reset setting: per-pin wiring of the edge register
+    gpio("GPIOIn(2 pins,irq,edge of pin 1 writable),csr8", "quick", 8, 2, cfg_menu=(0, 2), cfg_regs=("edge",),
+         pend_menu=(3,), en_menu=(3,), reads=(), read_in=False)
     gpio("GPIOIn(2 pins,irq,pin 0 configurable),csr8", "thorough", 8, 2, cfg_menu=(1,), **small)
     gpio("GPIOIn(2 pins,irq,pin 1 configurable),csr32", "thorough", 32, 2, cfg_menu=(2,), **small)
     gpio("GPIOTristate(2 pins,irq,reset configuration),csr32", "thorough", 32, 2, flavour="GPIOTristate", cfg_menu=(), **small)
